@@ -95,7 +95,7 @@ def _create(ctx, vip, rule, epm):
                construct='no replace in %s' % func.qualname)
         # EEXIST handler
         tests = [n for n in graph.nodes if n.kind == 'test' and
-                 'EEXIST' in N.txt(n.ast)]
+                 'EEXIST' in K.test_text(func, n)]
         ctx.ob('C14.1', func, tests[0] if tests else None, bool(tests),
                'the create routine handles EEXIST explicitly',
                construct='EEXIST handler of %s' % func.qualname)
@@ -289,8 +289,9 @@ def _collect(ctx, vip, rule):
             enoent = K.guarded_by(
                 graph, node, lambda e: any(
                     a.key[0] == 'cmp' and a.key[1] == '==' and
-                    sorted(t for t, _c in a.key[2]) == sorted(
-                        ['err.errno', 'errno.ENOENT'])
+                    len(a.key[2]) == 2 and
+                    'errno.ENOENT' in [t for t, _c in a.key[2]] and
+                    any(t.endswith('.errno') for t, _c in a.key[2])
                     for a in nz.facts_of_edge(e)), start=loop)
             ctx.ob('C14.3', func, node, enoent,
                    'reclaimed only under errno == ENOENT')
@@ -327,6 +328,15 @@ def _in_network(ctx, vip):
                     c is sub for c in C.node_calls(x))][0]
                 arg = N.txt(sub.args[1])
                 loop = K.enclosing_for(graph, site, arg)
+                if loop is None:
+                    # the candidate is a conversion of the loop variable
+                    # kept in a local of its own: candidate = str(host)
+                    rarg = K.rexpr(func, sub.args[1])
+                    if isinstance(rarg, ast.Call) and \
+                            K.callee_text(rarg) == 'str' and \
+                            len(rarg.args) == 1 and \
+                            isinstance(rarg.args[0], ast.Name):
+                        loop = K.enclosing_for(graph, site, rarg.args[0].id)
                 drawn = loop is not None and \
                     'self._cidr.hosts()' in N.txt(loop.ast.iter)
                 checked = K.guarded_by(graph, site, lambda e, a=arg: any(
@@ -382,7 +392,7 @@ def _service(ctx):
     ctx.require(frees, 'vips.free in on_delete_request')
     for node, call in frees:
         ok = key_of(N.txt(call.args[0]), ddefs) == did and \
-            "['ip']" in N.txt(call.args[1])
+            "['ip']" in K.rtxt(delete, call.args[1])
         ctx.ob('C14.5', delete, node, ok,
                'the IP recorded for the request is freed with the same '
                'owner key (the request id)')
